@@ -1,7 +1,7 @@
 import Pfst.ReconcileCorrect
 /-!
 Silence of the reconcile trace (`Pfst/Reconcile.lean`) on unchanged subtrees: a subtree all of whose nodes are in place and
-whose scalars compare equal (Python `==`) to the marked ones emits no operation (`stillN`), and such a subtree reached
+whose scalars (fields and `None` / identifier list elements) are the marked ones (value and type) emits no operation (`stillN`), and such a subtree reached
 through in-place ancestors lies outside the region rewritten by every operation of the trace (`keptN`).
 -/
 namespace Pfst.Reconcile
@@ -52,6 +52,18 @@ theorem stillN_shape (mark : T) (np : NP) (rel : Path) (n : T) (h : stillN mark 
     | tree l => simp only [stillN, Bool.and_eq_true] at h; exact ⟨l, k, cs, rfl, h.1.1.1⟩
     | _ => simp [stillN] at h
   | _ => simp [stillN] at h
+
+/-- a `None` / primitive list element that is what the slot holds is left alone (repaired `recurse_node`) -/
+theorem recNode_scalar_quiet (mark : T) (np : NP) (rel : Path) (outa x : T) (hs : x.isScalar = true)
+    (h : pyNe x outa = false) : recNode mark np rel outa x = ⟨[], false⟩ := by
+  cases x with
+  | nil => rw [recNode]; simp [h]
+  | prim v => rw [recNode]; simp [h]
+  | _ => simp [T.isScalar] at hs
+
+theorem sliceHead_scalar (mark : T) (np : NP) (fi : Nat) (ns : Option Nat) (i : Nat) (x : T) (hs : x.isScalar = true) :
+    sliceHead mark np fi ns i x.origin = none := by
+  cases x <;> simp_all [T.isScalar, T.origin, sliceHead]
 
 mutual
 theorem recNode_quiet (mark : T) : ∀ (n : T) (np : NP) (rel : Path) (outa : T),
@@ -129,8 +141,15 @@ theorem recPlain_quiet (mark : T) : ∀ (items : List T) (q : Path) (fi j : Nat)
     simp only [stillEs, Bool.and_eq_true] at h
     have ih := recPlain_quiet mark r q fi (j + 1) h.2
     rw [recPlain_cons, headD_eraseL_drop, tail_eraseL_drop, ih, ← markAt_elem]
-    rw [recNode_quiet mark x (.fst 0 q) [fi, j] _ h.1 (slot_mark mark _ q [fi, j] _ rfl)]
-    simp [seqR, preAll]
+    by_cases hsc : x.isScalar = true
+    · have h1 := h.1
+      simp only [hsc, if_true, Bool.not_eq_true'] at h1
+      rw [recNode_scalar_quiet mark _ _ _ x hsc h1]
+      simp [seqR, preAll]
+    · have h1 := h.1
+      simp only [hsc, if_false, Bool.false_eq_true] at h1
+      rw [recNode_quiet mark x (.fst 0 q) [fi, j] _ h1 (slot_mark mark _ q [fi, j] _ rfl)]
+      simp [seqR, preAll]
 
 theorem recSlice_quiet (mark : T) : ∀ (body : List T) (q : Path) (fi : Nat) (ns : Option Nat) (i : Nat) (run : Run),
     stillEs mark q fi i body = true → run.proc = 0 → run.skip = 0 →
@@ -140,16 +159,29 @@ theorem recSlice_quiet (mark : T) : ∀ (body : List T) (q : Path) (fi : Nat) (n
     rw [recSliceGo_nil]; simp [eraseL_length]; simp at hl; omega
   | x :: r, q, fi, ns, i, run, h, hp, hk, hl => by
     simp only [stillEs, Bool.and_eq_true] at h
-    obtain ⟨l, k, cs, rfl, hin⟩ := stillN_shape mark _ _ x h.1
-    have hx := recNode_quiet mark _ (.fst 0 q) [fi, i] _ h.1 (slot_mark mark _ q [fi, i] _ rfl)
+    have hsh : sliceHead mark (.fst 0 q) fi ns i x.origin = none := by
+      by_cases hsc : x.isScalar = true
+      · exact sliceHead_scalar mark _ fi ns i x hsc
+      · have h1 := h.1
+        simp only [hsc, if_false, Bool.false_eq_true] at h1
+        obtain ⟨l, k, cs, rfl, hin⟩ := stillN_shape mark _ _ x h1
+        exact sliceHead_inPlace mark q fi ns i l hin
+    have hx : recNode mark (.fst 0 q) [fi, i] (erase (markAt mark (q ++ [fi, i]))) x = ⟨[], false⟩ := by
+      by_cases hsc : x.isScalar = true
+      · have h1 := h.1
+        simp only [hsc, if_true, Bool.not_eq_true'] at h1
+        exact recNode_scalar_quiet mark _ _ _ x hsc h1
+      · have h1 := h.1
+        simp only [hsc, if_false, Bool.false_eq_true] at h1
+        exact recNode_quiet mark _ (.fst 0 q) [fi, i] _ h1 (slot_mark mark _ q [fi, i] _ rfl)
     have ih := recSlice_quiet mark r q fi ns (i + 1) { proc := 0, skip := 0, lenRead := (markAt mark (q ++ [fi])).kids.length }
       h.2 rfl rfl (by simp at hl ⊢; omega)
     have hlt : i < (markAt mark (q ++ [fi])).kids.length := by simp at hl; omega
     rw [recSliceGo_go _ _ _ _ _ _ _ _ _ _ (by omega)]
-    have hd : headState mark (.fst 0 q) fi ns i run (eraseL (markAt mark (q ++ [fi])).kids) (.node (.tree l) k cs) r
+    have hd : headState mark (.fst 0 q) fi ns i run (eraseL (markAt mark (q ++ [fi])).kids) x r
         = ([], eraseL (markAt mark (q ++ [fi])).kids, { proc := 1, lenRead := (markAt mark (q ++ [fi])).kids.length }) := by
       simp only [headState, hp, Nat.lt_irrefl, if_false]
-      rw [detect_none _ _ _ _ _ _ _ _ (sliceHead_inPlace mark q fi ns i l hin), eraseL_length]
+      rw [detect_none _ _ _ _ _ _ _ _ hsh, eraseL_length]
     rw [hd]
     have hnot : ¬ (i ≥ (markAt mark (q ++ [fi])).kids.length) := by omega
     simp only [Nat.lt_irrefl, if_false, hnot, decide_false, Bool.false_eq_true, elemRes, eraseL_getElem?, ← markAt_elem,
